@@ -444,7 +444,7 @@ fn c13() -> Property {
         ],
         real_components: REAL.to_vec(),
         stub_components: STUB.to_vec(),
-        expected_probes: vec!["duplicate-name-attempted", "detach-error-delivered", "attach-refusal-reported", "peer-detach-reported", "sibling-link-survived", "connection-survived"],
+        expected_probes: vec!["duplicate-name-attempted", "detach-error-delivered", "attach-refusal-reported", "peer-detach-reported", "sibling-link-survived", "connection-survived", "peer-detach-answered-in-kind"],
     }
 }
 
